@@ -107,6 +107,7 @@ type gRun struct {
 	order    []int // GetMetas order as row indices
 	boot     []int
 	retries  []string // "<row>:<ok>" per post-start lookup of a fail-once component
+	typeNameHits []string // custom-named nodes whose default (type) name resolved in a lookup although nothing is registered under it
 	slotInfo map[string][3]string // "row.slot" → kind,target,tagkind+tag
 	appRow   int
 	nodesObj []node
@@ -248,18 +249,26 @@ func runGraph(sc *gScen) *gRun {
 	res.created = tr.created
 	res.nested = append([]string{}, tr.nested...)
 	if res.status == "ok" && sc.retry() {
-		// the lazy components whose first creation is made to fail: look them up until they are created (at most 3 times)
+		// the lazy components whose first creation is made to fail (and the designated entry points of retry cycles): look them
+		// up until they are created (at most 4 times); what each attempt answered is kept for the oracles
 		for i, gn := range sc.nodes {
-			if gn.flt&fltInitOnce == 0 || tr.created[names[i]] {
+			if gn.flt&(fltInitOnce|fltLookup) == 0 || tr.created[names[i]] {
 				continue
 			}
-			for attempt := 0; attempt < 3 && !tr.created[names[i]]; attempt++ {
+			for attempt := 0; attempt < 4 && !tr.created[names[i]]; attempt++ {
 				var err error
 				if pan := hx.Guard(func() { _, err = a.GetComponentByName(names[i]) }); pan != nil {
 					res.status, res.errText = "panic", fmt.Sprint(pan)
 					break
 				}
-				res.retries = append(res.retries, fmt.Sprintf("%d:%v", i, err == nil))
+				cls := "true"
+				if err != nil {
+					cls = "false"
+					if strings.Contains(err.Error(), "has been wrapped") {
+						cls = "wrapped" // the stale-version check refused this attempt
+					}
+				}
+				res.retries = append(res.retries, fmt.Sprintf("%d:%s", i, cls))
 			}
 		}
 	}
@@ -406,6 +415,25 @@ func runGraph(sc *gScen) *gRun {
 		}
 		av := reflect.ValueOf(a).Elem()
 		res.fields[fmt.Sprintf("%d.CloserComponents", res.appRow)] = readSlot(av.FieldByName("CloserComponents"), env)
+		// a custom-named component answers to its custom name only: a lookup by its default (type) name finds nothing unless
+		// some other component is registered under that name (probed last: it must not disturb anything observed above)
+		defer func() {
+			for i, gn := range sc.nodes {
+				if gn.cust == "" {
+					continue
+				}
+				t := reflect.TypeOf(res.nodesObj[i]).Elem()
+				def := t.PkgPath() + "/" + t.Name()
+				if _, taken := res.rowOf[def]; taken {
+					continue
+				}
+				var c any
+				var err error
+				if hx.Guard(func() { c, err = a.GetComponentByName(def) }) == nil && err == nil && c != nil {
+					res.typeNameHits = append(res.typeNameHits, fmt.Sprintf("%d", i))
+				}
+			}
+		}()
 		for i := range sc.nodes {
 			if tr.created[names[i]] {
 				var c any
@@ -799,6 +827,9 @@ func (r *gRun) oracles() []string {
 			}
 		}
 	}
+	for _, row := range r.typeNameHits {
+		add("c01-type-name-lookup", "GetComponentByName(<default type name of node %s>) returned a component although node %s is registered under its custom name only and nothing else is registered under that type name", row, row)
+	}
 	// C04: the first lookup of a component whose Init fails the first time must not hand out the half-built instance
 	seen := map[string]bool{}
 	for _, t := range r.retries {
@@ -894,7 +925,13 @@ func (r *gRun) oracles() []string {
 				}
 				seen[o] = true
 				if p, ok := pubOf[row]; ok && p != o {
-					add("c03-stale", "field %s holds %s but the published version is %s", k, o, p)
+					if r.refusedBefore(row) {
+						// known finding KF-C03-1: an earlier attempt to create the target was refused by the stale-version check
+						// AFTER its cycle partner had been completed with the early reference; the partner stays published
+						add("c03-retry-stale-partner", "field %s holds %s but a later, successful lookup published %s: the holder was completed during an attempt that the stale-version check then refused, and was not removed with it", k, o, p)
+					} else {
+						add("c03-stale", "field %s holds %s but the published version is %s", k, o, p)
+					}
 				}
 				// (not in retry scenarios: there a creation may fail for good AFTER a partner was published holding its early
 				// reference — the partner is not rolled back, and C01 speaks about components that resolved, not about failed ones)
@@ -1273,7 +1310,17 @@ func emitGraph(sc *gScen, tags []string, w *hx.Writer) *gRun {
 // created. Second attempts are outside the machine model (one start): oracle-only.
 func (sc *gScen) retry() bool {
 	for _, n := range sc.nodes {
-		if n.flt&fltInitOnce != 0 {
+		if n.flt&(fltInitOnce|fltLookup) != 0 {
+			return true
+		}
+	}
+	return false
+}
+
+// refusedBefore: did the stale-version check refuse an earlier post-start attempt to create this row?
+func (r *gRun) refusedBefore(row string) bool {
+	for _, t := range r.retries {
+		if t == row+":wrapped" {
 			return true
 		}
 	}
